@@ -684,6 +684,43 @@ def lesson_cases(rng, reps, rules, names):
 
 
 
+def witness_cases(rules):
+    """the exact inputs of the witness / example theorems of Properties/C09.lean sections 9 and 10 (`exLayersT`, `exLaterT`,
+    `exPremT`, `exRatioT`, `exNoneT`): the generic per-case code compares the implementation with the model on them and
+    the theorems pin the model's output, so "the model (and the code)" in their doc-comments is checked on every run.
+    (`exClashT` is left out: the harness demands TriangleError for EVERY triangle with an unknown field, the theorems
+    only where no earlier coordinate fails - summarize_error_unknown_field_class_any.)"""
+    out = []
+
+    def wc(vals, ev=D(2020, 12, 31), **md):
+        return CumulativeCell(D(2020, 1, 1), D(2020, 12, 31), ev, vals, Metadata(**md))
+
+    def add(tag, cells, prem):
+        q = Plan()
+        q.tag, q.focus, q.tri, q.before, q.seq = "witness/" + tag, "paid_loss", None, None, False
+        q.kwargs = {"summarize_premium": prem}
+        q.cells, q.prem, q.extra, q.kind = cells, prem, [], "U"
+        q.n_slices = len({c.metadata for c in cells})
+        q.flavor, q.refuse, q.mixed, q.ratio_clash = "witness", None, False, False
+        q.fields = sorted({k for c in cells for k in c.values})
+        q.allrules = dict(rules)
+        out.append(q)
+
+    for prem in (False, True):
+        add("exLayersT", [wc({"paid_loss": 10, "earned_premium": 100.0}, loss_details={"layer": "A"}),
+                          wc({"paid_loss": 5, "earned_premium": 100.0}, loss_details={"layer": "B"})], prem)
+        add("exPremT", [wc({"paid_loss": 10}, loss_details={"layer": "A"}),
+                        wc({"paid_loss": 5, "earned_premium": 100.0}, loss_details={"layer": "B"})], prem)
+    add("exRatioT", [wc({"reported_loss": 100, "bf_weight": 0.5}, details={"s": "A"}),
+                     wc({"reported_loss": 300}, details={"s": "B"})], True)
+    add("exNoneT", [wc({"paid_loss": 1}, details={"k": None, "s": "A"}, loss_details={"q": None}),
+                    wc({"paid_loss": 2}, details={"k": None, "s": "B"}, loss_details={"q": None})], True)
+    add("exNoneT-one-slice", [wc({"paid_loss": 1}, details={"k": None})], True)
+    add("exLaterT", [wc({"paid_loss": 1}, details={"s": "A"}), wc({"paid_loss": 2}, details={"s": "B"}),
+                     wc({"paid_loss": 3, "mystery": 9}, ev=D(2021, 12, 31), details={"s": "A"})], True)
+    return out
+
+
 def run_summarize(ctx, rng, p, focus, reqs, info, sample=False, tri=None, force_seq=None, kwargs=None, before=None):
     """one summarize case: the implementation call(s), the harness-side clauses, and the request for the driver.
     Random cases pass only the first six arguments (the draws are the ones the loop made before this was a function)."""
@@ -800,6 +837,14 @@ def correspondence(ctx):
             run_summarize(ctx, lrng, lp, lp.focus, reqs, info, sample=False, tri=lp.tri, force_seq=lp.seq,
                           kwargs=lp.kwargs, before=lp.before)
 
+    # the exact inputs of the witness theorems (own RNG, no sequence stream, after every other summarize case)
+    if not os.environ.get("VERIF_SKIP_LESSONS"):
+        import random
+        wrng = random.Random(9)
+        for wp in witness_cases(rules):
+            ctx.count(f"stream=witness/{wp.tag.split('/')[1]}")
+            run_summarize(ctx, wrng, wp, wp.focus, reqs, info, sample=False, force_seq=False, kwargs=wp.kwargs)
+
     # summarize_cell_values on arbitrary cell lists
     for i in range(n_cv):
         focus = names[i % len(names)]
@@ -830,6 +875,14 @@ def correspondence(ctx):
 
     for (op, p, cells, impl, case), out in zip(info, outs):
         model, spec = out["model"], out["spec"]
+        if out.get("d29"):
+            # known finding D29 (listed in known_findings.json): Spec.ratioOk accepts, the plain reading Spec.ratioOkPlain
+            # rejects — some cell at the coordinate carries the weight but no value of the ratio field
+            ctx.count("summarize/known finding D29 (weights of value-less cells in the ratio denominator)")
+            if "D29" not in ctx.known_hits and not getattr(ctx, "_d29_reported", False):
+                ctx._d29_reported = True
+                ctx.known("D29", "summarize: a ratio field's weighted average keeps the weights of cells WITHOUT a value in the "
+                                 "denominator (result = sum(value*weight)/sum(ALL weights), pulled towards 0)", case)
         if spec is not None:
             for clause, okv in spec.items():
                 if not okv:
@@ -886,7 +939,7 @@ if __name__ == "__main__":
              "mixing kinds and shapes cell by cell, a 12% stream (of cases with a ratio field) whose ratio arrays differ in "
              "length between slices (ValueError); Cell/CumulativeCell/IncrementalCell; summarize_premium both ways; "
              "custom summary_fns (new and overriding), unknown and upper-case field names; plus summarize_cell_values "
-             "on arbitrary sub-lists. LESSON quota (about 100 cases per run, same per-case code): 256/257/300 slices at one coordinate, 40/256/1000-sample arrays, 330 cells, non-disjoint periods (same start / same end), half-month periods and day-level prev_evaluation_date differences, one odd slice among 3-5 for every metadata attribute and detail (interior / last / end), value-level late differences, every registered field with all / no options, summary_fns then defaults, value twins in sequence, derived triangles with warm parent caches, falsy shared metadata and values. SEQUENCE stream (30% of cases): cached accessors of the input read first, priming calls of summarize / summarize_cell_values / aggregate on another input with custom summary_fns and other options, the call under test with default arguments omitted, input dump compared before/after, accessors of the result compared with a fresh triangle of its cells, the result spoiled in place (arrays zeroed, dicts edited, list reversed; objects shared with the input left alone), optionally a differently configured call, then the same call again with an identical result required. distinct = distinct canonical input dump; non-trivial = more than one slice and at "
+             "on arbitrary sub-lists. LESSON quota (about 100 cases per run, same per-case code): 256/257/300 slices at one coordinate, 40/256/1000-sample arrays, 330 cells, non-disjoint periods (same start / same end), half-month periods and day-level prev_evaluation_date differences, one odd slice among 3-5 for every metadata attribute and detail (interior / last / end), value-level late differences, every registered field with all / no options, summary_fns then defaults, value twins in sequence, derived triangles with warm parent caches, falsy shared metadata and values. WITNESS stream (8 fixed cases): the exact inputs of the example / witness theorems of Properties/C09.lean (premium missing in the first cell, ratio value missing in one cell, shared None details, unknown field at a later coordinate). SEQUENCE stream (30% of cases): cached accessors of the input read first, priming calls of summarize / summarize_cell_values / aggregate on another input with custom summary_fns and other options, the call under test with default arguments omitted, input dump compared before/after, accessors of the result compared with a fresh triangle of its cells, the result spoiled in place (arrays zeroed, dicts edited, list reversed; objects shared with the input left alone), optionally a differently configured call, then the same call again with an identical result required. distinct = distinct canonical input dump; non-trivial = more than one slice and at "
              "least one coordinate held by two cells",
         assumptions=["field names are ASCII (str.lower modelled by String.toLower)",
                      "values are NaN-free, exactly representable; ratio-field results compared with relative tolerance 2^-40",
